@@ -25,6 +25,8 @@ def make(prop, quick, thorough, explanation, functions, outside, extra_bounds=No
         js = []
         for sc in scenarios(ctx).values():
             js += e3.make_jobs(ctx, sc)
+        first = list(scenarios(ctx).values())[0]
+        js.append(e3.smoke_job(ctx, first))
         return js
 
     def confirm(ctx, job, failure):
